@@ -265,6 +265,12 @@ def c10_programs(rng, n):
                     {1: [("send", "channel", 201), ("wait_gate", "go"), ("raise",)], 2: [("send", "channel", 221)]}))
     out.append(prog([("u1", [("remote_exec", "c", 1), ("setcallback", "c", True), ("drop", "c"), ("remote_exec", "e", 2), ("receive_all", "e"), ("sleep", 3)])],
                     {1: [("send", "channel", 201), ("raise",)], 2: [("send", "channel", 221)]}))
+    # a callback that closes its own channel when it gets the endmarker, while the channel is only half closed ("sendonly": the peer dropped
+    # its end but kept a callback): the endmarker is delivered once, not again by the re-entrant close
+    out.append(prog([("u1", [("remote_exec", "c", 1), ("recvchan", "c", "x"), ("setcallback", "x", False), ("drop", "x"), ("sleep", 2), ("send", "c", 1), ("waitclose", "c")])],
+                    {1: [("newchannel", "k"), ("setcallback", "k", True, -1, "closeself"), ("sendchan", "channel", "k"), ("send", "k", 301), ("receive", "channel")]}))
+    out.append(prog([("u1", [("newchannel", "k"), ("setcallback", "k", True, -1, "closeself"), ("remote_exec", "c", 1), ("sendchan", "c", "k"), ("sleep", 2), ("waitclose", "c")])],
+                    {1: [("recvchan", "channel", "x"), ("setcallback", "x", False), ("send", "x", 301), ("drop", "x")]}))
     # the peer closed first, then setcallback (delivers the endmarker itself), then the gateway ends: still exactly one endmarker
     out.append(prog([("u1", [("remote_exec", "c", 1), ("waitclose", "c"), ("setcallback", "c", True), ("exit",), ("join",)])],
                     {1: [("send", "channel", 201), ("send", "channel", 202)]}))
@@ -378,4 +384,9 @@ def c04_programs():
     # a callback channel whose object was dropped: its endmarker must still come when the connection is lost
     out.append(prog([("u1", [("remote_exec", "k", 2), ("setcallback", "k", True), ("drop", "k"), ("remote_exec", "c", 1), ("receive_all", "c")] + post)],
                     {1: [("send", "channel", 201), ("receive", "channel")], 2: [("send", "channel", 211), ("receive", "channel")], 9: []}))
+    # a thread that creates a channel and reads from it at an arbitrary moment relative to the loss: it gets OSError from newchannel()
+    # or EOFError from receive(), it never blocks on a channel of a dead gateway
+    out.append(prog([("u1", [("remote_exec", "c", 1), ("receive_all", "c")] + post),
+                     ("u2", [("newchannel", "d"), ("receive", "d"), ("newchannel", "e"), ("receive", "e")])],
+                    {1: [("send", "channel", 201), ("send", "channel", 202), ("receive", "channel")], 9: []}))
     return out
